@@ -304,7 +304,7 @@ def nontrivial(sc, fam):
     return True
 
 
-def run_family(ctx, res, fam, n_quick=360, n_thorough=6000):
+def run_family(ctx, res, fam, n_quick=1200, n_thorough=24000):
     ok, log = C.go_build_conc()
     if not ok:
         res.violation("corr:harness-build", "the scheduling harness does not build against /repo",
